@@ -230,7 +230,16 @@ func c36Run(r *simkit.Run) {
 		a, n int
 	}
 
+	// two focused populations beside the free mix: the identity of the selected rule changes while its numbers do
+	// not - (4) the suffrage state hash changes and the requesting node stays a consensus node, (5) two client ids
+	// with the same rules used in turn from one address. The budget belongs to the (address, handler) and its numbers:
+	// neither change may refill it.
+	scenario := r.Draw("scenario", 0, 5)
+
 	nphases := r.Draw("phases", 1, 4)
+	if scenario >= 4 && nphases < 2 {
+		nphases = 2
+	}
 	adminPlan := make([][]admin, nphases)
 	type reqPlan struct {
 		a, h, c int
@@ -257,6 +266,36 @@ func c36Run(r *simkit.Run) {
 		}
 	}
 
+	if scenario >= 4 {
+		r.Probe(map[int]string{4: "scenario_state_hash_changes_member_stays", 5: "scenario_twin_client_ids"}[scenario])
+
+		for p := 0; p < nphases; p++ {
+			switch {
+			case scenario == 4 && p == 0:
+				adminPlan[p] = []admin{{kind: 3}, {kind: 5, a: 0, n: 0}, {kind: 6, n: -1}}
+			case scenario == 4:
+				adminPlan[p] = []admin{{kind: 6, n: -1}}
+			case p == 0:
+				adminPlan[p] = []admin{{kind: 0, n: -1}}
+			default:
+				adminPlan[p] = nil
+			}
+
+			for c := range clientPlan[p] {
+				for k := range clientPlan[p][c] {
+					q := &clientPlan[p][c][k]
+					q.a, q.h, q.c = 0, 0, 0
+
+					if scenario == 5 {
+						q.c = 2 + (k+c)%2
+					}
+
+					q.sleep = []time.Duration{time.Microsecond, time.Microsecond, time.Millisecond, 100 * time.Millisecond}[r.Choose(4)]
+				}
+			}
+		}
+	}
+
 	history := map[string][]c36Req{}
 
 	type flight struct {
@@ -275,8 +314,17 @@ func c36Run(r *simkit.Run) {
 			tables.clientid = map[string]*c36Map{}
 			real := map[string]launch.RateLimiterRuleMap{}
 
+			var twin *c36Map
+			if a.n == -1 { // both client ids get the same rules
+				twin = newMap(true)
+			}
+
 			for _, c := range []string{"cA", "cB"} {
-				if r.Chance(1, 2) {
+				switch {
+				case twin != nil:
+					tables.clientid[c] = twin
+					real[c] = twin.real()
+				case r.Chance(1, 2):
 					m := newMap(false)
 					tables.clientid[c] = m
 					real[c] = m.real()
@@ -341,6 +389,12 @@ func c36Run(r *simkit.Run) {
 			// the membership covers the suffrage and its candidates, the hash is the suffrage state's: candidates come
 			// and go under an unchanged hash
 			sameHash := r.Chance(1, 2)
+
+			if a.n == -1 { // the first node stays a member, the state hash changes
+				tables.consensus[nodes[0].String()] = true
+				sameHash = false
+			}
+
 			if !sameHash {
 				statehash = valuehash.RandomSHA256()
 			} else {
@@ -570,7 +624,7 @@ func init() {
 		Run:         c36Run,
 		Real:        []string{"launch.RateLimitHandler (Func, AddNode, shrink daemon)", "launch.RateLimiterRules and every rule set", "launch.RateLimiter over golang.org/x/time/rate", "addrPool"},
 		Stub:        []string{"consensus-node lookup (harness function)", "verif-tagged accessor reading the address pool (has address, bound node)"},
-		Rule:        "each run draws 1-4 phases; in each an admin changes rule tables (client-id, nets, node, suffrage, default map; rule bursts unique per run so the result identifies the rule), binds addresses to nodes and changes the consensus nodes, then 1-3 concurrent clients issue requests from 4 addresses x 2 handlers x 3 client ids with sleeps from 1 us to 3 s on the fake clock, while the shrink daemon runs (expiry 2 s/33 s, optional max-addrs pressure). Every result is compared with the statement's precedence evaluated on the tables strictly before the request; afterwards every window of allowed requests per (address, handler) under an unchanged rule must fit burst + rate x window. distinct = event-log hash",
+		Rule:        "each run draws 1-4 phases; in each an admin changes rule tables (client-id, nets, node, suffrage, default map; rule bursts unique per run so the result identifies the rule), binds addresses to nodes and changes the consensus nodes, then 1-3 concurrent clients issue requests from 4 addresses x 2 handlers x 3 client ids with sleeps from 1 us to 3 s on the fake clock, while the shrink daemon runs (expiry 2 s/33 s, optional max-addrs pressure). A third of the runs are focused: the suffrage state hash changes between phases while the requesting node stays a member, or two client ids with the same rules are used in turn from one address - the identity of the selected rule changes, its numbers do not, and the window budget must hold across the change. Every result is compared with the statement's precedence evaluated on the tables strictly before the request; afterwards every window of allowed requests per (address, handler) under an unchanged rule must fit burst + rate x window. distinct = event-log hash",
 		Assumptions: []string{"causally ordered actions are at least 1 us apart on the fake clock (the code compares nanosecond stamps)", "every net rule map has a default, so 'first matching network' is unambiguous", "an address idle for ExpireAddr legitimately starts with a fresh limiter"},
 	})
 }
